@@ -30,6 +30,10 @@ A_LOAD, A_CAS, A_SPUR, A_ALLOC, A_GROW, A_SHRINK, A_DROP = 1, 2, 3, 4, 5, 6, 7
 ACTIONS = ["TryLoadGiveUp", "TryLoadCont", "TryCasOk", "TryCasFailRetry", "TryCasFailGiveUp",
            "TryCasSpurious", "Alloc", "ResizeGrow", "ResizeShrink", "Drop"]
 TOYS = ["toctou", "nostore", "storefirst", "droporig", "satsub"]
+# Debug knob for demonstrating the violation path end to end: VERIF_C33_IMPL=toy:toctou runs the
+# whole check against the harness' seeded-bug mirror of the pool instead of the real one.
+# Never set by the registered commands; recorded in evidence when used.
+IMPL = os.environ.get("VERIF_C33_IMPL", "real")
 
 
 # ------------------------------------------------------------------------------------------
@@ -49,13 +53,16 @@ def sim_states(res):
 
 
 def check_action_coverage(res, what):
+    """per-action transition counts from TLC's -coverage output (the LAST report; TLC prints
+    interim ones and vlib sums them).  An action never taken = vacuous exploration."""
     cov = {}
-    for k, v in res.coverage.items():
-        k = k[2:] if k.startswith("Do") else k
-        cov[k] = cov.get(k, 0) + v
+    for m in re.finditer(r"^<(\w+) line \d+, col \d+ to line \d+, col \d+ of module MemoryPool>: (\d+):(\d+)", res.out, re.M):
+        k = m.group(1)
+        cov[k[2:] if k.startswith("Do") else k] = int(m.group(3))
     missing = [a for a in ACTIONS if cov.get(a, 0) == 0]
     if missing:
         raise ToolError(f"{what}: spec actions never taken: {missing} (vacuous exploration)")
+    res.coverage = {}
     return {a: cov[a] for a in ACTIONS}
 
 
@@ -110,7 +117,10 @@ def classify(c):
     return f
 
 
-def run_replay(ctx, path_in, path_out, *, impl="real", trace=None, lanes=None, timeout=3000):
+def run_replay(ctx, path_in, path_out, *, impl=None, trace=None, lanes=None, timeout=3000):
+    impl = impl or IMPL
+    if impl != "real":
+        ctx.set("impl_under_test", impl)
     args = ["pool-replay", path_in, path_out, "--impl", impl, "--lanes", str(lanes or min(12, os.cpu_count() or 4))]
     if trace:
         args += ["--trace", trace]
@@ -146,7 +156,7 @@ def judge_results(ctx, cases, outs, label, tlc_confirm=3):
                 confirmed += 1
                 if not tlc_rejects(ctx, obs_records(r["trace"]), "confirm"):
                     raise ToolError(f"{label}: harness reports a contract breach TLC does not confirm: {r['contract']}")
-            ctx.violation(case, f"real MemoryPool under the schedule of this behaviour, step {r['at'] + 1}: {r['contract']}")
+            ctx.violation(case, f"{'real MemoryPool' if IMPL == 'real' else IMPL} under the schedule of this behaviour, step {r['at'] + 1}: {r['contract']}")
         else:
             ctx.add("spec_drift")
             note = f"spec drift ({label}) step {r['at'] + 1}: {r['why']} -- contract holds on observed values"
@@ -159,7 +169,8 @@ def judge_results(ctx, cases, outs, label, tlc_confirm=3):
 # ------------------------------------------------------------------------------------------
 # (V) stress
 
-def stress(ctx, tag, seed, nt, rounds, ops, mode, mx, impl="real"):
+def stress(ctx, tag, seed, nt, rounds, ops, mode, mx, impl=None):
+    impl = impl or IMPL
     path = os.path.join(ctx.work, f"stress-{tag}.ndjson")
     args = ["pool-stress", str(seed), str(nt), str(rounds), str(ops), mode, str(mx), path]
     if impl != "real":
@@ -168,22 +179,50 @@ def stress(ctx, tag, seed, nt, rounds, ops, mode, mx, impl="real"):
     return read_ndjson(path)
 
 
-def judge_stress(ctx, recs, params, name):
-    rej = validate_records(ctx, "MemoryPoolTrace", "MemoryPoolTrace.cfg", recs, name=name, max_rejects=2)
-    for r in rej:
-        case = {"kind": "stress", "params": params, "rec": r}
-        if r["ev"] == "barrier":
-            mx = next(x["max"] for x in recs if x["ev"] == "begin")
-            obs = [{"ev": "obs", "u": r["u"], "live": r["live"], "max": mx, "grant": 0, "idle": 1}]
-            if tlc_rejects(ctx, obs, "confirm"):
-                ctx.violation(case, f"unscheduled stress ({params}): at a barrier used()={r['u']} but the live size()s are {r['live']}")
-            else:
-                ctx.add("spec_drift")
-                ctx.notes.append({"note": "stress barrier: observed size()s differ from the requested sizes but used() equals their sum", "rec": r})
-        elif r["ev"] == "sop" and r.get("tryonly") == 1:
-            ctx.violation(case, f"unscheduled try-only stress ({params}): thread {r['t']} observed used()={r['o']} above the limit, or was granted more than the limit: {json.dumps(r)}")
+def ule(a, b):
+    """unsigned <= on window representatives (MemoryPool!ULe)"""
+    return a == b or ((a < b) if (a >= 0) == (b >= 0) else a >= 0)
+
+
+def judge_stress_reject(ctx, r, params):
+    """one record of a stress trace that MemoryPoolTrace rejected"""
+    case = {"kind": "stress", "params": params, "rec": r}
+    if r["ev"] == "barrier":
+        obs = [{"ev": "obs", "u": r["u"], "live": r["live"], "max": params["max"], "grant": 0, "idle": 1}]
+        if tlc_rejects(ctx, obs, "confirm"):
+            ctx.violation(case, f"unscheduled stress ({params}): at a barrier used()={r['u']} but the live size()s are {r['live']}")
         else:
-            raise ToolError(f"stress trace record not consumable by MemoryPoolTrace: {json.dumps(r)[:300]}")
+            ctx.add("spec_drift")
+            ctx.notes.append({"note": "stress barrier: observed size()s differ from the requested sizes but used() equals their sum", "rec": r})
+    elif r["ev"] == "sop" and r.get("tryonly") == 1 and (
+            not ule(r["o"], params["max"]) or (r["k"] == A_LOAD and r["ok"] == 1 and not ule(r["x"], params["max"]))):
+        o = "a value far outside the window (underflow?)" if r["o"] == vlib.NULL else r["o"]
+        ctx.violation(case, f"unscheduled try-only stress ({params}): thread {r['t']} observed used()={o} above the limit "
+                            f"{params['max']}, or was granted more than the limit: {json.dumps(r)}")
+    else:
+        raise ToolError(f"stress trace record not consumable by MemoryPoolTrace: {json.dumps(r)[:300]}")
+
+
+def validate_segments(ctx, recs, name, budget=4):
+    """TLC-validate a concatenation of recorded runs (each starts with `begin`).  After a
+    rejection the rest of that run is skipped (its state is no longer defined) and validation
+    goes on with the next run.  Returns the rejected records (the same objects)."""
+    rejected = []
+    while recs and len(rejected) < budget:
+        rej = validate_records(ctx, "MemoryPoolTrace", "MemoryPoolTrace.cfg", recs, name=name, max_rejects=0)
+        if not rej:
+            break
+        rejected.append(rej[0])
+        i = next(k for k, x in enumerate(recs) if x is rej[0])
+        j = next((k for k in range(i + 1, len(recs)) if recs[k]["ev"] == "begin"), len(recs))
+        recs = recs[j:]
+    return rejected
+
+
+def judge_stress(ctx, recs, params, name):
+    rej = validate_segments(ctx, recs, name)
+    for r in rej:
+        judge_stress_reject(ctx, r, params)
     return rej
 
 
@@ -219,8 +258,8 @@ def generate(ctx, tier, families, sim_walks, sim_procs):
     # (M)
     for (label, m, c, _), r in zip(jobs[:n_m], res[:n_m]):
         tlc_must_pass(r, c)
-        ctx.tlc_stats(r, label)
         cov = check_action_coverage(r, c)
+        ctx.tlc_stats(r, label)
         ctx.cov.setdefault("spec_action_transitions", {})[c] = cov
     # sanity variants must be caught by the model
     allowed = {"MemoryPool_toctou.cfg": ("NoBadGrant", "CondGrant", "TryOnlyBounded"),
@@ -270,7 +309,7 @@ def generate(ctx, tier, families, sim_walks, sim_procs):
 
 def run(ctx):
     q = ctx.tier == "quick"
-    cases = generate(ctx, ctx.tier, ["a", "b", "c"], 1500 if q else 240000, 1 if q else 6)
+    cases = generate(ctx, ctx.tier, ["a", "b", "c"], 1500 if q else 150000, 1 if q else 6)
     # ---- (R) replay on the real pool
     feats = {"interleaved": 0, "cas_fail_retry": 0, "cas_fail_giveup": 0, "cas_ok": 0, "load_giveup": 0, "alloc": 0,
              "grow": 0, "shrink": 0, "drop": 0, "wrap": 0, "over_limit": 0}
@@ -306,25 +345,37 @@ def run(ctx):
     sinp = os.path.join(ctx.work, "obs.in.ndjson")
     write_ndjson(sinp, sample)
     souts = run_replay(ctx, sinp, os.path.join(ctx.work, "obs.out.ndjson"), trace="all")
-    recs = [r for o in souts for r in o["trace"]]
-    rej = validate_records(ctx, "MemoryPoolTrace", "MemoryPoolTrace.cfg", recs, name="observed", max_rejects=2)
-    for r in rej:
-        # a real step that is no spec step: contract or drift is decided by the obs records (judge_results did
-        # that for the full set already); here it can only be drift that the harness comparison missed
-        raise ToolError(f"observed step accepted by the harness comparison but rejected by MemoryPoolTrace: {json.dumps(r)[:300]}")
-    ctx.add("traces_validated_against_impl", ok - 1 if ok else 0)   # validate_records counted 1 for the sample file
+    # (behaviours that diverged were judged above; here TLC re-judges the ones the harness accepted)
+    recs = [r for o in souts if o["status"] == "ok" for r in o["trace"]]
     # ---- (V) unscheduled stress with barriers
     plans = ([("tryonly", 4, 12, 5, 8), ("mixed", 4, 12, 5, 8)] if q else
              [("tryonly", 16, 60, 8, 8), ("tryonly", 16, 40, 8, 0), ("tryonly", 8, 40, 8, 3), ("mixed", 16, 60, 8, 8),
               ("wrap", 16, 40, 8, -1), ("mixed", 3, 80, 10, 3)])
     sops = 0
+    origin = {}
     for i, (mode, nt, rounds, ops, mx) in enumerate(plans):
         params = {"mode": mode, "threads": nt, "rounds": rounds, "ops": ops, "max": mx, "seed": ctx.seed + i}
         srecs = stress(ctx, f"{i}", ctx.seed + i, nt, rounds, ops, mode, mx)
         sops += sum(1 for r in srecs if r["ev"] == "sop")
-        judge_stress(ctx, srecs, params, f"stress{i}")
         ctx.add("barriers_checked", sum(1 for r in srecs if r["ev"] == "barrier"))
+        for r in srecs:
+            origin[id(r)] = params
+        recs += srecs
+    # one TLC run judges everything recorded from the real pool (segments start with `begin`)
+    rej = validate_segments(ctx, recs, "observed")
+    bad_plans = set()
+    for r in rej:
+        if id(r) in origin:
+            bad_plans.add(json.dumps(origin[id(r)]))
+            judge_stress_reject(ctx, r, origin[id(r)])
+        else:
+            # the harness comparison accepted this step (judge_results above) but TLC does not: the two judges disagree
+            raise ToolError(f"observed step accepted by the harness comparison but rejected by MemoryPoolTrace: {json.dumps(r)[:300]}")
+    stress_ok = len(plans) - len(bad_plans)
     ctx.set("stress_ops_recorded", sops)
+    ctx.set("stress_traces_accepted", stress_ok)
+    # behaviours the real pool followed step by step + stress traces TLC accepted
+    ctx.set("traces_validated_against_impl", ok + stress_ok)
     ctx.add("evaluations", sops)
     ctx.set("exhaustive", True)
     ctx.set("rule",
@@ -388,7 +439,7 @@ def selftest(ctx):
     bad = []
 
     def check(name, cond, detail=""):
-        print(f"selftest {name}: {'detected' if cond else 'NOT DETECTED'} {detail}")
+        print(f"selftest {name}: {'pass' if cond else 'FAIL'} {detail}")
         if not cond:
             bad.append(name)
 
@@ -417,7 +468,7 @@ def selftest(ctx):
     check("wrong expected outcome", r["status"] == "diverged" and r["at"] == i, r.get("why", ""))
     # 3. a spec step removed: the thread is then at another sync point than the spec says -> binding lost
     c3 = json.loads(json.dumps(pick))
-    j = next(k for k, s in enumerate(c3["steps"]) if s[1] == A_CAS and s[4] == 2)
+    j = next(k for k, s in enumerate(c3["steps"]) if s[1] == A_LOAD and s[4] == 2)
     del c3["steps"][j]
     write_ndjson(inp, [c3])
     r = run_replay(ctx, inp, outp, lanes=1)[0]
@@ -428,7 +479,8 @@ def selftest(ctx):
     t4[li]["u"] += 1
     rej = tlc_rejects(ctx, t4, "st-step")
     check("corrupted observed used() in a step record", bool(rej) and rej[0] == t4[li], json.dumps(rej[:1]))
-    t5 = [x for k, x in enumerate(good_trace) if k != li]
+    lj = next(k for k, x in enumerate(good_trace) if x["ev"] == "step" and x["u"] != 0)   # first step that moves `used`
+    t5 = [x for k, x in enumerate(good_trace) if k != lj]
     rej = tlc_rejects(ctx, t5, "st-drop")
     check("observed step record dropped", bool(rej), json.dumps(rej[:1])[:200])
     t6 = json.loads(json.dumps(obs_records(good_trace)))
